@@ -16,7 +16,7 @@ K = "bounded model checking (Kani 0.68 / CBMC 6.11 SAT)"
 S = "SMT (z3 4.8 / z3 5.1 / cvc5 portfolio) over symbolic execution of the MIR of the real functions (mir2smt)"
 CLAIMED = {
  "C01": ("DESIGN.md §5 C01",
-         "Bounded model checking of the real serialize/deserialize code (Kani/CBMC) against an independent wire-format oracle, plus SMT obligations over the MIR of the vint kernels: for every value inside each obligation's bound the emitted bytes equal the CQL v4 encoding and decode back to the value.",
+         "Bounded model checking of the real serialize/deserialize code (Kani/CBMC) against an independent wire-format oracle, plus SMT obligations over the MIR of the vint kernels (zig-zag and unsigned vint encode/decode for ALL 64-bit values): for every value inside each obligation's bound the emitted bytes equal the CQL v4 encoding and decode back to the value.",
          "Bounds per obligation are in the evidence (content lengths <= 3, collections <= 2, nesting <= 2); Hash* and third-party carriers are outside. Trusts Kani/CBMC/CaDiCaL, the harness-side reference encoder, and for vint the mir2smt translator (validated per run against native execution).",
          K + " + " + S),
  "C02": ("DESIGN.md §5 C02",
@@ -24,8 +24,8 @@ CLAIMED = {
          "Only the id-reservation arithmetic is decided. The delivery clause (response reaches exactly its request) and every schedule quantifier live in ResponseHandlerMap/router tasks (HashMap + tokio) and are NOT decided. Allocation is checked for the first non-full block at concrete indices {0,511} quick / {0,1,255,256,510,511} thorough with symbolic contents.",
          K),
  "C03": ("DESIGN.md §5 C03",
-         "The Murmur3 partitioner hasher is decided against an independent bit-vector definition of Cassandra's MurmurHash3_x64_128 (signed-byte tail, Long.MIN_VALUE -> Long.MAX_VALUE): block mix and fmix for all inputs; finish() from an arbitrary hasher state for every tail length 0..15; token of every byte string of the listed lengths; every 2-way (and a grid of 3-way) chunking reaches the same hasher state; CDC partitioner = first 8 bytes big-endian, short keys give the invalid token.",
-         "Lengths: quick {0,1,7,8,9,15,16,17,31,32,33}, thorough 0..48 and 63..65, 70. The composite-key encoding / bind-marker permutation (PartitionKey::new, deser_prepared_metadata pk-index ordering) is NOT decided yet (SmallVec + SerializedValues iteration); nor is the choice of partitioner from table metadata. Trusted: mir2smt translator + library models (Wrapping, slices, bytes::Buf).",
+         "The Murmur3 partitioner hasher is decided against an independent bit-vector definition of Cassandra's MurmurHash3_x64_128 (signed-byte tail, Long.MIN_VALUE -> Long.MAX_VALUE): block mix and fmix for all inputs; finish() from an arbitrary hasher state for every tail length 0..15; token of every byte string of the listed lengths; every 2-way (and a grid of 3-way) chunking reaches the same hasher state; CDC partitioner = first 8 bytes big-endian, short keys give the invalid token. Composite keys: deser_prepared_metadata keeps (marker index, pk position) pairs together and sorts them by marker for ALL distinct marker indices (k <= 3 quick, 4 thorough); PartitionKey::new + write_encoded_partition_key hand the hasher the single column's bytes, or len_be16|bytes|0 per component in partition-key order, for EVERY injective placement of k key columns on m bind markers (k<=3 of m<=4 quick; k<=5 of m<=6 thorough) with non-key markers (value / null / unset) interleaved and all component bytes symbolic; calculate_token (Murmur3 and CDC) of such keys equals the specification's token.",
+         "Lengths: quick {0,1,7,8,9,15,16,17,31,32,33}, thorough 0..48 and 63..65, 70. Key shapes beyond 5 components / 6 markers, component length profiles other than the listed ones, null key components and the choice of partitioner from table metadata are outside. Iterator adaptors (map is lazy, closures run from their MIR), Vec/SmallVec, sort_unstable_by_key (= any key-ordered permutation) and byteorder reads are library models. Trusted: mir2smt translator + library models.",
          S),
  "C04": ("DESIGN.md §5 C04",
          "Kernel only: TokenRing<T> walk (new/sort, ring_range_full, ring_range, get_elem_for_token) for rings of 0..4 (thorough 5) members with fully symbolic tokens and query: starts at the first member clockwise from the token, visits each member once, wraps once.",
@@ -44,8 +44,8 @@ CLAIMED = {
          "Only QUERY (and the parameter block shared with EXECUTE) plus the frame header are decided; EXECUTE ids, BATCH, PREPARE, REGISTER, OPTIONS, AUTH_RESPONSE, STARTUP bodies are not yet; LZ4/Snappy bodies are replaced by an opaque body (only the header of compressed frames is checked). Value lists <= 2 cells, paging state <= 2 bytes.",
          S),
  "C11": ("DESIGN.md §5 C11",
-         "shard_of == ScyllaDB's formula and < nr_shards for ALL tokens x shard counts 1..=65535 x msb 0..=63; lowest-port rule for ALL valid port ranges and shard counts (Some = lowest congruent port in range, None iff none exists); ShardInfo::new rejects iff shard >= nr_shards; plus Kani on the draw/iterate glue with the RNG replaced by arbitrary values for small windows.",
-         "INT encoding (explicit mod 2^k) for the arithmetic; translator validated every run against native execution on seeded inputs. Iterator glue: nr_shards in {3,7} (thorough more), port windows < 24 ports. msb_ignore >= 64 and SUPPORTED-options parsing (HashMap) outside.",
+         "shard_of == ScyllaDB's formula and < nr_shards for ALL tokens x shard counts 1..=65535 x msb 0..=63; lowest-port rule for ALL valid port ranges and shard counts (Some = lowest congruent port in range, None iff none exists); ShardInfo::new rejects iff shard >= nr_shards; draw_source_port_for_shard_from_range and iter_source_ports_for_shard_from_range decided for ALL ranges/shard counts with the RNG draw a symbolic value and the iterator chain given abstract sequence semantics (every yielded port is in range and congruent, every such port is yielded once, none when there is none); Kani cross-check of the same glue on small windows.",
+         "INT encoding (explicit mod 2^k) for the arithmetic; translator validated every run against native execution on seeded inputs. Lemma L1 ((x + y*m) mod m == x mod m) is an ASSUMPTION of the glue obligations (no installed solver discharges it in INT or 34-bit BV within the cap; listed in the obligation's assumes). msb_ignore >= 64 and SUPPORTED-options parsing (HashMap) outside.",
          S + " + " + K),
  "C15": ("DESIGN.md §5 C15",
          "One TableTablets::add_tablet step from an ARBITRARY invariant-satisfying pre-state of N tablets (N <= 4 quick, <= 6 thorough; all bounds symbolic i64) followed by tablet_for_token on an arbitrary token: list stays sorted/disjoint, exactly the overlapped tablets disappear, lookup = newest covering tablet or nothing (never stale).",
@@ -60,7 +60,7 @@ CLAIMED = {
          "Column types are natives (non-native columns against native carriers and two-level container mismatches are not in the quick tier); the too-many-values failure kind needs 65535 prior cells and is outside; error-path stubs as in C01 (ColumnType::clone, Arc::drop_slow).",
          K),
  "C18": ("DESIGN.md §5 C18",
-         "Thread-modular (rely/guarantee) step obligation on the real next_timestamp/compute_next: with up to R interfering successful CAS updates by other threads and an arbitrary clock reading injected between load and compare_exchange, the returned timestamp exceeds every timestamp handed out before and `last` equals it.",
+         "Thread-modular (rely/guarantee) step obligation on the real next_timestamp/compute_next: an environment step (up to R interfering successful upward updates of `last` by other threads) is scheduled at EVERY atomic access of the generator (load, compare_exchange, and any fetch_max/store/swap/fetch_add a change might introduce) and the clock reading is arbitrary; the returned timestamp exceeds every timestamp handed out before and `last` equals it.",
          "Kani atomics are sequentially consistent; rely: other threads only CAS `last` upwards. last >= i64::MAX-8 excluded. 'Explicit statement timestamp wins' lives in async Connection code and is NOT decided.",
          K),
  "C20": ("DESIGN.md §5 C20",
@@ -101,7 +101,7 @@ def manifest():
         "engines": [
             {"name": "K", "path": "/verif/kani + /verif/vlib/kanirun.py", "serves_properties": sorted(CLAIMED),
              "kind_free_text": "Kani 0.68 proof harnesses (CBMC 6.11 + CaDiCaL) over the real crates via path dependencies; recompiled from /repo on every run"},
-            {"name": "S", "path": "/verif/mir2smt", "serves_properties": [p for p in sorted(CLAIMED) if p in ("C01", "C03", "C09", "C11")],
+            {"name": "S", "path": "/verif/mir2smt", "serves_properties": [p for p in sorted(CLAIMED) if p in ("C01", "C03", "C06", "C09", "C11", "C15", "C16", "C20")],
              "kind_free_text": "MIR (nightly -Zunpretty=mir of the real crate) -> SMT-LIB2 translator; z3 4.8 / z3 5.1 / cvc5 portfolio"},
         ],
         "checks": checks,
